@@ -13,7 +13,7 @@ from .model import AnalysisError, Project
 from .report import Abort, Report
 
 
-def lift(P: Project, R: Report, prop: str, rules: Iterable[str], as_rule: str, text: str, prefix: str, min_n: int = 1, suffix: str = "") -> int:
+def lift(P: Project, R: Report, prop: str, rules: Iterable[str], as_rule: str, text: str, prefix: str, min_n: int = 1, suffix: str = "", select=None) -> int:
     mod = importlib.import_module(f"sa.checks.{prop.lower()}")
     sub = Report(prop=prop, tier=R.tier)
     undecided = None
@@ -23,7 +23,7 @@ def lift(P: Project, R: Report, prop: str, rules: Iterable[str], as_rule: str, t
         pass
     except AnalysisError as e:
         undecided = str(e)
-    obs = [o for o in sub.obligations if o.rule in set(rules)]
+    obs = [o for o in sub.obligations if o.rule in set(rules) and (select is None or select(o))]
     if len(obs) < min_n and all(o.ok for o in obs):
         if undecided is not None:
             R.notes.append(f"{as_rule} not evaluated: {prop}'s rules could not read their subject ({undecided[:140]})")
